@@ -43,6 +43,16 @@ def synth(sc):
     return b, data
 
 
+def wrot_of(sc):
+    """None, a scalar, or "matrix:<seed>" = a full (non-symmetric) whitening matrix close to 0.7 * identity"""
+    w = sc.get("wrot")
+    if isinstance(w, str) and w.startswith("matrix:"):
+        r = np.random.default_rng(int(w.split(":")[1]))
+        m = 0.7 * np.eye(384) + 0.02 * r.standard_normal((384, 384))
+        return m
+    return w
+
+
 def expected_batches(sc, data, labels, sr):
     """batch-wise in-memory destriping with the documented taper margins -> int16 rows per canonical batch"""
     import scipy.signal
@@ -62,8 +72,9 @@ def expected_batches(sc, data, labels, sr):
         x = voltage.destripe(chunk, fs=sr.fs, h=h, channel_labels=labels if sc["reject"] else None,
                              k_filter=sc["k_filter"])
         x = x.T * mute[:, None] / sr.sample2volts[:384]
-        if sc.get("wrot") is not None:
-            x = x * sc["wrot"]
+        w = wrot_of(sc)
+        if w is not None:
+            x = np.dot(x, w) if np.ndim(w) == 2 else x * w
         lo = 0 if b == 0 else f + T
         hi = ns if l == ns else f + NB - T
         out[lo:hi, :384] = x[lo - f:hi - f, :]
@@ -93,7 +104,7 @@ def main():
                 voltage.decompress_destripe_cbin(binf, output_file=out, nbatch=sc["nbatch"], nprocesses=sc["nproc"],
                                                  ns2add=sc.get("ns2add", 0), append=(k > 0),
                                                  reject_channels=sc["reject"], k_filter=sc["k_filter"],
-                                                 wrot=sc.get("wrot"))
+                                                 wrot=wrot_of(sc))
             except BaseException as e:  # noqa
                 r["exc"] = f"{type(e).__name__}: {str(e)[:200]}"
             evs = []
